@@ -14,7 +14,7 @@ echo "$OUT" | grep -A1 "existing suite" | grep -q "exit=0" || { echo "REJECT: ex
 git -C /repo diff --quiet || { echo "/repo not clean"; exit 2; }
 git -C /repo apply $SRC/patch.diff || (cd /repo && patch -p1 -s --no-backup-if-mismatch < $SRC/patch.diff) || { echo "apply failed"; git -C /repo checkout -- .; exit 2; }
 mkdir -p /tmp/keepseed.$$ ; cp /verif/known_findings.json /tmp/keepseed.$$/
-RES=$(/verif/bin/xmppcheck -property $PROP -verif /tmp/keepseed.$$ 2>&1); RC=$?
+RES=$(${XMPPCHECK:-/verif/bin/xmppcheck} -property $PROP -verif /tmp/keepseed.$$ 2>&1); RC=$?
 git -C /repo checkout -- .
 rm -rf /tmp/keepseed.$$
 CAUGHT=$(echo "$RES" | grep "^  FAIL" | sed 's/^  FAIL [^ ]* \([^ ]*\).*/\1/' | cut -d'|' -f1 | sort -u | tr '\n' ' ')
@@ -25,7 +25,7 @@ mkdir -p $DST; cp $SRC/patch.diff $DST/patch.diff
 python3 - "$SRC/meta.json" "$DST/meta.json" "$RC" "$CAUGHT" <<'PY'
 import json,sys
 m=json.load(open(sys.argv[1]))
-m['confirmed']={'by':'selftest/keep_seed.sh','ran':['go build ./... (patched scratch copy)','go test -vet=off -count=1 ./... (patched, without the demo): pass','demo on unpatched tree: pass','demo on patched tree: FAIL','git -C /repo apply patch.diff; /verif/bin/xmppcheck -property %s; git -C /repo checkout -- .'%m['property']],
+m['confirmed']={'by':'selftest/keep_seed.sh','ran':['go build ./... (patched scratch copy)','go test -vet=off -count=1 ./... (patched, without the demo): pass','demo on unpatched tree: pass','demo on patched tree: FAIL','git -C /repo apply patch.diff; ${XMPPCHECK:-/verif/bin/xmppcheck} -property %s; git -C /repo checkout -- .'%m['property']],
   'check_exit':int(sys.argv[3]),'caught_by_rules':sys.argv[4].split(),'detected':int(sys.argv[3])!=0,'baseline':'/repo HEAD at the time of confirmation (includes the fix: commits)'}
 m['demo_file']='demo_test.go.txt (rename to zz_seed_demo_test.go in demo_dir)'
 json.dump(m,open(sys.argv[2],'w'),indent=1)
